@@ -693,8 +693,61 @@ class Canon:
                 setattr(new, fld, self._sub(val, at, depth, bound))
         return self._fold(new)
 
+    def _nt_fields(self, name):
+        """field names of a module level namedtuple `name = namedtuple('..', 'a b' | ['a', 'b'])` (also typing.NamedTuple call form)"""
+        cache = self.__dict__.setdefault('_nt', {})
+        if name in cache:
+            return cache[name]
+        v = getattr(self.fn.mod, 'constants', {}).get(name)
+        if v is None:
+            # imported from another module of the package
+            imp = getattr(self.fn.mod, 'imports', {}).get(name)
+            if imp and imp[0] == 'obj':
+                m = getattr(self.fn.repo, 'bymod', {}).get(imp[1])
+                if m is not None:
+                    v = m.constants.get(imp[2])
+        if v is None:
+            # a helper of another module was inlined here together with the names it uses: unique definition in the package
+            cands = [m.constants[name] for m in getattr(self.fn.repo, 'modules', {}).values() if name in getattr(m, 'constants', {})]
+            if len(cands) == 1:
+                v = cands[0]
+        out = None
+        if isinstance(v, ast.Call) and (getattr(v.func, 'id', None) == 'namedtuple' or getattr(v.func, 'attr', None) == 'namedtuple') and len(v.args) >= 2:
+            f = v.args[1]
+            if isinstance(f, ast.Constant) and isinstance(f.value, str):
+                out = f.value.replace(',', ' ').split()
+            elif isinstance(f, (ast.List, ast.Tuple)) and all(isinstance(x, ast.Constant) and isinstance(x.value, str) for x in f.elts):
+                out = [x.value for x in f.elts]
+        cache[name] = out
+        return out
+
+    def _nt_component(self, call, key):
+        """the argument of a namedtuple construction that a field name / index selects, or None"""
+        if not (isinstance(call, ast.Call) and isinstance(call.func, ast.Name)):
+            return None
+        fields = self._nt_fields(call.func.id)
+        if not fields or any(isinstance(a, ast.Starred) for a in call.args) or any(k.arg is None for k in call.keywords):
+            return None
+        vals = dict(zip(fields, call.args))
+        for k in call.keywords:
+            vals[k.arg] = k.value
+        if isinstance(key, int):
+            key = fields[key] if -len(fields) <= key < len(fields) else None
+        return vals.get(key)
+
+    def _fold(self, new):
+        if isinstance(new, ast.Attribute) and isinstance(new.value, ast.Call):
+            c = self._nt_component(new.value, new.attr)
+            if c is not None:
+                return c
+        if isinstance(new, ast.Subscript) and isinstance(new.value, ast.Call) and isinstance(new.slice, ast.Constant) and isinstance(new.slice.value, int):
+            c = self._nt_component(new.value, new.slice.value)
+            if c is not None:
+                return c
+        return self._fold_static(new)
+
     @staticmethod
-    def _fold(new):
+    def _fold_static(new):
         if isinstance(new, ast.Subscript) and isinstance(new.value, (ast.Tuple, ast.List)) and isinstance(new.slice, ast.Constant) and \
                 isinstance(new.slice.value, int) and -len(new.value.elts) <= new.slice.value < len(new.value.elts) and \
                 not any(isinstance(x, ast.Starred) for x in new.value.elts):
@@ -704,7 +757,7 @@ class Canon:
             lo = new.value.slice.lower
             lov = 0 if lo is None else lo.value if isinstance(lo, ast.Constant) and isinstance(lo.value, int) else None
             if lov is not None and lov >= 0:      # v[lo:hi][i] == v[lo + i] (within the slice)
-                return Canon._fold(ast.Subscript(value=new.value.value, slice=ast.Constant(value=lov + new.slice.value), ctx=ast.Load()))
+                return Canon._fold_static(ast.Subscript(value=new.value.value, slice=ast.Constant(value=lov + new.slice.value), ctx=ast.Load()))
         if isinstance(new, ast.Subscript) and isinstance(new.slice, ast.Constant) and new.slice.value in (0, 1) and isinstance(new.value, ast.Call) and \
                 isinstance(new.value.func, ast.Name) and new.value.func.id == 'divmod' and len(new.value.args) == 2 and not new.value.keywords:
             a, b = new.value.args        # divmod(a, b) == (a // b, a % b)
